@@ -10,7 +10,7 @@ import ast
 from kvstatic.core import Repo, Report, ModelError, AnchorError, norm
 from kvstatic import oracle, simtab, simops
 from kvstatic.astutil import (find_all, attr_chain, is_name, target_names, call_name, find_dispatch_loops,
-                              check_rebinding, flatten_if_chain, walk_no_nested_funcs, enclosing, parents, body_no_doc)
+                              check_rebinding, resolve_locs, flatten_if_chain, walk_no_nested_funcs, enclosing, parents, body_no_doc)
 
 
 def bool_table(expr, invars, vt, arr_names=('c', 'self.c')):
@@ -194,11 +194,10 @@ def run(rep: Report, repo: Repo):
     emit = set(n for _, names, _ in rows for n in names) | {s.lut.id for s in sites if isinstance(s.lut, ast.Name) and s.lut.id in luts}
     nbranch = 0
     for cname, fn, d, arrs in chains:
-        tn, src, table = check_rebinding(d)
-        ok = tn == [d.outvar] + d.invars and src == tn and table is not None and table.split('.')[-1] == 'c_locs'
+        ok = resolve_locs(d)
         rep.ob('C01.rebind', cname, ok)
         if not ok:
-            rep.violate('C01.rebind', lmod, fn, d.rebinding, f'{cname}: index variables are not mapped 1:1 through c_locs ({tn} <- {src} via {table})', node=d.rebinding)
+            rep.violate('C01.rebind', lmod, fn, d.rebinding, f'{cname}: op columns 1..5 are not mapped 1:1 through c_locs before the chain', node=d.rebinding)
         it = d.loop.iter
         if not (isinstance(it.slice, ast.Tuple) and norm(it.slice) in ('(slice(None, None, None), slice(None, 6, None))',) or norm(it).endswith('[:, :6]')):
             rep.violate('C01.columns', lmod, fn, it, f'{cname}: the loop does not iterate the first six op columns: {norm(it)}', node=it)
@@ -219,12 +218,12 @@ def run(rep: Report, repo: Repo):
                 raise ModelError(f'{cname}: branch {const} is not a single store: {norm(body[0])[:80]}')
             st = store[0]
             tgt = st.targets[0]
-            if not (isinstance(tgt, ast.Subscript) and attr_chain(tgt.value) in arrs and is_name(tgt.slice, d.outvar)):
+            if not (isinstance(tgt, ast.Subscript) and attr_chain(tgt.value) in arrs and is_name(tgt.slice, d.loc_out)):
                 rep.ob('C01.writers', f'{cname}:{const}', False)
-                rep.violate('C01.writers', lmod, fn, st, f'{cname}: branch {const} stores to {norm(tgt)} instead of the output location c[{d.outvar}]', node=st)
+                rep.violate('C01.writers', lmod, fn, st, f'{cname}: branch {const} stores to {norm(tgt)} instead of the output location c[{d.loc_out}]', node=st)
                 continue
             try:
-                tab = bool_table(st.value, d.invars, vt, arrs)
+                tab = bool_table(st.value, d.loc_ins, vt, arrs)
             except NotLaneWise as e:
                 rep.ob('C01.writers', f'{cname}:{const}', False)
                 rep.violate('C01.writers', lmod, fn, st, f'{cname}: branch {const} uses {norm(e.node)[:60]}, not a lane-wise & | ^ ~ of operands', node=st)
